@@ -2,6 +2,7 @@
    The definitions they talk about (Gen_*.v) are regenerated from /repo's headers on every run. *)
 From Coq Require Import ZArith List.
 From MomoCommon Require Import GenPrelude.
+From C13 Require Gen_Open2N2_m1 Gen_Open2N2_m2 Gen_Open2N2_nf SameCode.
 From C13 Require Gen_Open2N2 Gen_OpenN1 Gen_Open8 Open2N2_Proofs OpenN1_Proofs ProbeSeq OpenTable OpenInstances.
 Import ListNotations.
 Local Open Scope Z_scope.
@@ -97,3 +98,15 @@ Theorem C13_open8_openn1_insert_fails_only_if_all_buckets_full :
   forall b, 0 <= b < 2 ^ n -> (cap <= length (OpenTable.bk _ s b))%nat.
 Proof. exact OpenInstances.open8_full_only_if_all_full. Qed.
 Print Assumptions C13_open8_openn1_insert_fails_only_if_all_buckets_full.
+
+(* The encoder and probe-step code regenerated from BucketOpen2N2<.,1,true>, <.,2,true> and <.,3,false> is
+   syntactically the code the theorems above are about (<.,3,true>): they hold for Open2N2<1..3>, both variants. *)
+Theorem C13_open2n2_all_instantiations_same_code :
+  (Gen_Open2N2_m1.UpdateMaxProbe = Gen_Open2N2.UpdateMaxProbe /\ Gen_Open2N2_m1.pvGetMaxProbe = Gen_Open2N2.pvGetMaxProbe /\
+   Gen_Open2N2_m1.pvGetCount = Gen_Open2N2.pvGetCount /\ Gen_Open2N2_m1.GetNextBucketIndex = Gen_Open2N2.GetNextBucketIndex) /\
+  (Gen_Open2N2_m2.UpdateMaxProbe = Gen_Open2N2.UpdateMaxProbe /\ Gen_Open2N2_m2.pvGetMaxProbe = Gen_Open2N2.pvGetMaxProbe /\
+   Gen_Open2N2_m2.pvGetCount = Gen_Open2N2.pvGetCount /\ Gen_Open2N2_m2.GetNextBucketIndex = Gen_Open2N2.GetNextBucketIndex) /\
+  (Gen_Open2N2_nf.UpdateMaxProbe = Gen_Open2N2.UpdateMaxProbe /\ Gen_Open2N2_nf.pvGetMaxProbe = Gen_Open2N2.pvGetMaxProbe /\
+   Gen_Open2N2_nf.pvGetCount = Gen_Open2N2.pvGetCount /\ Gen_Open2N2_nf.GetNextBucketIndex = Gen_Open2N2.GetNextBucketIndex).
+Proof. exact SameCode.same_all. Qed.
+Print Assumptions C13_open2n2_all_instantiations_same_code.
